@@ -5,7 +5,9 @@ import (
 	"go/ast"
 	"go/token"
 	"go/types"
+	"reflect"
 	"sort"
+	"strconv"
 	"strings"
 
 	"verif/checker/eng"
@@ -543,6 +545,205 @@ func emptyContentAccepted(c *cx, id string, in func(f *eng.Fn) bool) int {
 			}
 			c.r.Check(id, f, "empty element accepted where character data is expected", "E-dec4: the failure edge of a CharData assertion leads to an error only after the element's own end tag was told apart", f.Pos(), bad == "", bad)
 		}
+	}
+	return n
+}
+
+// namespacedDecodeTargets (E-dec5): inside a decoder that walks the children
+// of its element and picks arms by name, a child is decoded into a struct
+// whose XMLName tag names a namespace only where the start element's
+// namespace was tested: encoding/xml fails ("expected element <x> in name
+// space ...") on a like-named element of another namespace, where the decoder
+// should have treated it as a foreign child (skipped it or kept it as
+// application content).
+func namespacedDecodeTargets(c *cx, id string, in func(f *eng.Fn) bool) int {
+	n := 0
+	for _, f := range c.allFns() {
+		if f.Body == nil || f.Obj == nil || !in(f) || !strings.HasPrefix(f.Obj.Name(), "UnmarshalXML") {
+			continue
+		}
+		g := f.Graph()
+		for _, cl := range f.Calls("encoding/xml.Decoder.DecodeElement") {
+			if len(cl.Args) != 2 {
+				continue
+			}
+			// only calls that decode a CHILD: dominated by a test of a local name
+			pt, _ := g.Where(cl)
+			if len(g.DominatingAtoms(pt, "eq(*.Name.Local,*)")) == 0 {
+				continue
+			}
+			t := f.Info().TypeOf(cl.Args[0])
+			if p, ok := t.(*types.Pointer); ok {
+				t = p.Elem()
+			}
+			st, ok := t.Underlying().(*types.Struct)
+			if !ok {
+				continue
+			}
+			ns := ""
+			for i := 0; i < st.NumFields(); i++ {
+				if st.Field(i).Name() == "XMLName" {
+					tag := reflect.StructTag(st.Tag(i)).Get("xml")
+					if sp := strings.LastIndex(tag, " "); sp > 0 {
+						ns = tag[:sp]
+					}
+				}
+			}
+			if ns == "" {
+				continue
+			}
+			n++
+			okd := len(g.DominatingAtoms(pt, "eq(*.Name.Space,*)")) > 0
+			c.r.Check(id, f, "child decoded into a target in namespace "+ns, "E-dec5: the arm that decodes a child into a namespaced target has tested the child's namespace", cl.Pos(), okd, "the arm is chosen by the local name alone: a like-named element of another namespace makes DecodeElement fail instead of being treated as a foreign child")
+		}
+	}
+	return n
+}
+
+// tagsStructured: the name in an `xml:"..."` struct tag carries its namespace
+// as "namespace-URL local": a tag `xml:lang,attr` is written as the bytes
+// xml:lang by the encoder, but the DECODER (which translates the xml prefix to
+// its namespace URL) no longer matches the attribute, so the field stays empty
+// on decoding while the hand-written parsers still read it.
+func tagsStructured(c *cx, id string, pkgs []string) int {
+	n := 0
+	for _, pk := range c.p.All {
+		ok := false
+		for _, rel := range pkgs {
+			if pk.PkgPath == eng.ModPath+"/"+strings.TrimSuffix(rel, ".") {
+				ok = true
+			}
+		}
+		if !ok {
+			continue
+		}
+		for _, file := range pk.Syntax {
+			if strings.HasSuffix(pk.Fset.Position(file.Pos()).Filename, "_test.go") {
+				continue
+			}
+			ast.Inspect(file, func(x ast.Node) bool {
+				st, isS := x.(*ast.StructType)
+				if !isS {
+					return true
+				}
+				for _, fld := range st.Fields.List {
+					if fld.Tag == nil {
+						continue
+					}
+					raw, err := strconv.Unquote(fld.Tag.Value)
+					if err != nil {
+						continue
+					}
+					tag, has := reflect.StructTag(raw).Lookup("xml")
+					if !has || tag == "" {
+						continue
+					}
+					name := strings.Split(tag, ",")[0]
+					if name == "" {
+						continue
+					}
+					n++
+					local := name
+					if sp := strings.LastIndex(name, " "); sp >= 0 {
+						local = name[sp+1:]
+					}
+					c.r.CheckNamed(id, strings.TrimPrefix(pk.PkgPath, eng.ModPath+"/"), "struct tag "+name, "K: the local name in an xml struct tag holds no prefix", fld.Tag.Pos(), !strings.Contains(local, ":"), "tag name \""+name+"\" hard-codes a prefix: the decoder matches attributes and elements by namespace URL and local name and will not fill this field")
+				}
+				return true
+			})
+		}
+	}
+	return n
+}
+
+// encodersReadOnly (E-eff, local): an encoder (TokenReader, WriteXML,
+// MarshalXML, MarshalXMLAttr, MarshalText) does not write to storage that is
+// reachable from its receiver: no assignment whose left-hand side goes from
+// the receiver - or from a local that holds the address of a part of the
+// receiver - through a pointer, slice or map. Encoding a value twice, or
+// encoding and then reading it, then sees the same value. (A range loop over
+// a slice of structs copies each element: writes to the copy are local.)
+func encodersReadOnly(c *cx, id string, in func(f *eng.Fn) bool) int {
+	n := 0
+	indirect := func(f *eng.Fn, lhs ast.Expr) bool {
+		e := ast.Unparen(lhs)
+		for {
+			var x ast.Expr
+			switch y := e.(type) {
+			case *ast.SelectorExpr:
+				x = y.X
+			case *ast.IndexExpr:
+				x = y.X
+			case *ast.StarExpr:
+				return true
+			default:
+				return false
+			}
+			x = ast.Unparen(x)
+			if t := f.Info().TypeOf(x); t != nil {
+				switch t.Underlying().(type) {
+				case *types.Pointer, *types.Slice, *types.Map:
+					return true
+				}
+			}
+			e = x
+		}
+	}
+	for _, f := range c.allFns() {
+		if f.Body == nil || f.Decl == nil || !in(f) || f.Sig() == nil || f.Sig().Recv() == nil {
+			continue
+		}
+		switch f.Decl.Name.Name {
+		case "TokenReader", "WriteXML", "MarshalXML", "MarshalXMLAttr", "MarshalText":
+		default:
+			continue
+		}
+		n++
+		g := f.Graph()
+		recv := f.Sig().Recv()
+		bad, badPos := "", f.Pos()
+		f.WalkBody(func(nd ast.Node) bool {
+			if _, isLit := nd.(*ast.FuncLit); isLit {
+				return true
+			}
+			return true
+		})
+		for _, w := range f.Writes() {
+			if !indirect(f, w.LHS) {
+				continue
+			}
+			root := rootLocal(f, w.LHS)
+			if root == nil {
+				continue
+			}
+			pt, _ := g.Where(w.Stmt)
+			shared := ""
+			if root == recv || (f.Decl.Recv != nil && len(f.Decl.Recv.List) > 0 && len(f.Decl.Recv.List[0].Names) > 0 && f.Info().Defs[f.Decl.Recv.List[0].Names[0]] == types.Object(root)) {
+				shared = "the receiver"
+			} else {
+				for _, d := range g.ReachingDefs(root, pt) {
+					if d.RHS == nil || (d.Kind != eng.DefPlain) {
+						continue
+					}
+					s := f.Norm(d.RHS, &d.At)
+					if strings.HasPrefix(s, "&recv.") || strings.HasPrefix(s, "&recv[") || s == "recv" || s == "&recv" {
+						shared = "the receiver (through " + f.LocalName(root) + " = " + s + ")"
+					} else if strings.HasPrefix(s, "recv.") {
+						if t := f.Info().TypeOf(d.RHS); t != nil {
+							switch t.Underlying().(type) {
+							case *types.Pointer, *types.Slice, *types.Map:
+								shared = "the receiver (through " + f.LocalName(root) + " = " + s + ")"
+							}
+						}
+					}
+				}
+			}
+			if shared != "" && bad == "" {
+				bad = "assignment to " + f.Norm(w.LHS, nil) + " at " + c.p.Pos(w.Stmt.Pos()) + " writes to storage of " + shared
+				badPos = w.Stmt.Pos()
+			}
+		}
+		c.r.Check(id, f, "encoder leaves the value unchanged", "E-eff: an encoder does not assign through the receiver (or a local alias of a part of it): encoding does not change the value", badPos, bad == "", bad)
 	}
 	return n
 }
